@@ -160,6 +160,9 @@ pub fn run(ctx: &Ctx) -> i32 {
         acc.inconclusive.push("dump canary failed".into());
     }
     let max_rpt = acc.stats.get_max("max_reads_per_token_x100") as f64 / 100.0;
+    if !ctx.quick() {
+        acc.miri(40, 60);
+    }
     acc.finish(
         "exploration",
         "the text workload of C11 (exhaustive token sequences, nesting families, programs, mutants, random texts); each text parsed with Context::new and Context::new().without_cache() (uncached parse cut off at 200k token reads through the read-limit hook and then counted as infeasible), results compared structurally; cached reads bounded by 100*n+100; growth ratio reads(2d)/reads(d) <= 2.5 on 18 nesting families; non-trivial = compared with the uncached parser and the cache was hit at least once; distinct by text hash",
